@@ -90,7 +90,12 @@ func (w *worker) runPersist(cs J, stages bool) J {
 		return fail("viol", "Close() of the first instance did not return within 5 s")
 	}
 	// instance 2: loads the snapshot, runs the commands, clean shutdown
-	stagesDir := filepath.Join(dir, "stages")
+	// (not under the persist directory: the emulator loads every <base>.db<n> it finds below it, at any depth)
+	stagesDir, err := os.MkdirTemp("", "verif-stages-")
+	if err != nil {
+		return fail("error", err.Error())
+	}
+	defer os.RemoveAll(stagesDir)
 	var ex []string
 	if stages {
 		os.MkdirAll(stagesDir, 0o755)
@@ -179,20 +184,41 @@ func (w *worker) runPersist(cs J, stages bool) J {
 			return fail("error", "image "+name+": "+err.Error())
 		}
 		nimg++
-		dPre := compareState(pre, iob, ctx, dm)
-		dPost := compareState(ideal["post"].(J), iob, ctx, dm)
-		if dPre != "" && dPost != "" {
-			if real != nil && compareState(real["post"].(J), iob, ctx, dm) == "" {
+		// "either the previous or the new snapshot of EACH database": judged database by database (a shutdown
+		// that writes several files is not atomic across them, and the property does not ask for that)
+		allDbs := map[int]bool{}
+		for db := range iob {
+			allDbs[db] = true
+		}
+		for _, st := range []J{pre, ideal["post"].(J)} {
+			for _, e := range jList(st["ents"]) {
+				allDbs[int(jInt(e.(J)["db"]))] = true
+			}
+		}
+		for db := range allDbs {
+			only := ObsState{}
+			if m, ok := iob[db]; ok && len(m) > 0 {
+				only[db] = m
+			}
+			restrict := func(st J) J {
+				var ents []any
+				for _, e := range jList(st["ents"]) {
+					if int(jInt(e.(J)["db"])) == db {
+						ents = append(ents, e)
+					}
+				}
+				return J{"now": st["now"], "ents": ents}
+			}
+			if compareState(restrict(pre), only, ctx, dm) == "" || compareState(restrict(ideal["post"].(J)), only, ctx, dm) == "" {
 				continue
 			}
-			nkeys := 0
-			for _, m := range iob {
-				nkeys += len(m)
+			if real != nil && compareState(restrict(real["post"].(J)), only, ctx, dm) == "" {
+				continue
 			}
-			if nkeys == 0 {
+			if len(only[db]) == 0 {
 				tornEmpty++
 			} else {
-				torn = append(torn, fmt.Sprintf("%s loads as %s", name, iob.String()))
+				torn = append(torn, fmt.Sprintf("%s: database %d loads as %s", name, db, only.String()))
 			}
 		}
 	}
